@@ -50,17 +50,20 @@ Remove(i) ==
   /\ InOrd(i)
   /\ LET p == prev[i]  n == next[i] IN
      /\ bad' = (IF p = Indet \/ n = Indet THEN "indet-read" ELSE bad)
-     /\ IF p # 0 THEN next' = [next EXCEPT ![p] = n] /\ UNCHANGED head
-        ELSE head' = n /\ UNCHANGED next
-     /\ prev' = IF n # 0 /\ n # Indet THEN [prev EXCEPT ![n] = p] ELSE prev
+     \* the removed item's own links are stale from now on and never read before insert() rewrites them:
+     \* modelled as Indet again (a read would be flagged)
+     /\ IF p # 0 THEN next' = [next EXCEPT ![p] = n, ![i] = Indet] /\ UNCHANGED head
+        ELSE head' = n /\ next' = [next EXCEPT ![i] = Indet]
+     /\ prev' = IF n # 0 /\ n # Indet THEN [prev EXCEPT ![n] = p, ![i] = Indet] ELSE [prev EXCEPT ![i] = Indet]
   /\ ord' = SelectSeq(ord, LAMBDA x : x # i)
   /\ lastOp' = "remove" /\ lastItem' = i /\ lastRes' = 0 /\ UNCHANGED kv
 Pop ==
   /\ head # 0
   /\ head' = next[head]
-  /\ prev' = IF next[head] # 0 THEN [prev EXCEPT ![next[head]] = 0] ELSE prev
+  /\ prev' = IF next[head] # 0 THEN [prev EXCEPT ![next[head]] = 0, ![head] = Indet] ELSE [prev EXCEPT ![head] = Indet]
+  /\ next' = [next EXCEPT ![head] = Indet]                  \* stale, see Remove
   /\ ord' = Tail(ord)
-  /\ lastOp' = "pop" /\ lastItem' = 0 /\ lastRes' = head /\ UNCHANGED <<kv, next, bad>>
+  /\ lastOp' = "pop" /\ lastItem' = 0 /\ lastRes' = head /\ UNCHANGED <<kv, bad>>
 Next == (\E i \in Items : Insert(i) \/ Remove(i)) \/ Pop
 Spec == Init /\ [][Next]_<<vars, lastOp, lastItem, lastRes>>
 RECURSIVE Chain(_, _)
